@@ -153,6 +153,21 @@ def gen_bpa(rng):
     return "bpa %d %s %s %s" % (rng.choice([0, 1, 3, 30]), fmt_pomdp(m), Qs(b), bstr)
 
 
+def gen_reuse(rng):
+    """one solver object per algorithm, 2-3 problems of the same shape in a row: first lower values (costs), then higher"""
+    m = _pomdp(rng, small=True)
+    if m["g"] == F(1, 4): m["g"] = F(1, 2)
+    def shifted(k, mul=1):
+        mm = dict(m); mm["R"] = [[x * mul + k for x in row] for row in m["R"]]; return mm
+    lo = shifted(-rng.choice([8, 20, 50]), rng.choice([1, 2])); hi = shifted(rng.choice([8, 20]))
+    seq = rng.choice([[lo, m], [lo, hi], [lo, m, hi], [hi, lo, m], [m, lo, hi]])
+    span = F(rng.choice([2, 4, 8]))
+    b0 = gen_beliefs(rng, m["S"], 1)[0]
+    bstr, _ = _beliefs(rng, m["S"], 5)
+    return "reuse %d %d %d %d %d %s %d %s %s %s" % (rng.randint(1, 5), rng.randint(1, 5), rng.randint(1, 5), rng.randint(1, 3),
+            rng.choice([3, 8]), Qs([span]), len(seq), " ".join(fmt_pomdp(x) for x in seq), Qs(b0), bstr)
+
+
 def gen_perseus_d1(rng):
     m = _pomdp(rng); m["g"] = F(1)
     return "perseus_d1 %s" % fmt_pomdp(m)
@@ -191,5 +206,6 @@ def gen(rng, tier):
         elif r < 0.92: out.append(gen_anytime(rng, "gapmin"))
         elif r < 0.945: out.append(gen_switch(rng, "gapmin"))
         elif r < 0.955: out.append(gen_perseus_d1(rng))
+        elif r < 0.985: out.append(gen_reuse(rng))
         else: out.append(gen_cleanup(rng))
     return out
